@@ -3257,6 +3257,8 @@ func (d *Document) serializeStyles() error {
 	// 添加XML声明
 	d.parts["word/styles.xml"] = append([]byte(xml.Header), data...)
 	d.stylesGenerated = true
+	// 打开的包可能没有样式部件（也没有xml扩展名的默认类型）：这里生成的部件必须有内容类型
+	d.addContentType("word/styles.xml", "application/vnd.openxmlformats-officedocument.wordprocessingml.styles+xml")
 
 	Debugf("样式序列化完成")
 	return nil
